@@ -390,6 +390,9 @@ func runInBubble(s Script) (res vt.Result) {
 				evs := memhttp.ParseSSE(e.ex.Written())
 				next := e.from + 1
 				var lastIdx = e.from
+				// A GET without Last-Event-ID on the standalone stream is not a resume: the property does not say
+				// where it starts (replay from the beginning or live tail), so the first id seen fixes the start.
+				anyStart := st == standalone && !e.hasFrom
 				for _, ev := range evs {
 					if ev.ID == "" {
 						if ev.Data != "" && (ev.Name == "" || ev.Name == "message") {
@@ -416,6 +419,9 @@ func runInBubble(s Script) (res vt.Result) {
 					}
 					if !bytes.Equal([]byte(ev.Data), log[idx]) {
 						res.Failf("step %d: event id %s carried %q, but message #%d written to the stream is %q (ids must denote the same message on every delivery and replay)", step, ev.ID, ev.Data, idx, log[idx])
+					}
+					if anyStart {
+						next, anyStart = idx, false
 					}
 					if idx != next {
 						res.Failf("step %d: stream %q exchange %d (resumed after %d): received index %d where %d was due (lost, duplicated or reordered)", step, st.sid, xi, e.from, idx, next)
@@ -563,7 +569,8 @@ func runInBubble(s Script) (res vt.Result) {
 				break
 			}
 			idx := sr.seenIdx[st.I%len(sr.seenIdx)]
-			wasAttached := sr.attached() != nil
+			owner := sr.attached()
+			wasAttached := owner != nil
 			if detachedWrites[sr] && !wasAttached {
 				nt = true
 			}
@@ -587,8 +594,15 @@ func runInBubble(s Script) (res vt.Result) {
 			switch ex.Status() {
 			case 200, 0: // 0: accepted, nothing to replay yet, headers not committed
 				if wasAttached && !racing {
-					// two exchanges now claim the same stream: one of them must have been refused
-					res.Failf("step %d: resume of stream %q was accepted (200) while another exchange still owns the stream", i, sr.sid)
+					if owner.ex.HandlerDone() {
+						// take-over: the server ended the older exchange in favour of the resume (exclusive replay is
+						// the SDK's own defensive choice, not the property's); later messages are not owed to it
+						owner.hclosed = true
+						res.Class("resume_took_over_attached_stream")
+					} else {
+						// two exchanges now claim the same stream: one of them must have been refused or ended
+						res.Failf("step %d: resume of stream %q was accepted (200) while another exchange still owns the stream", i, sr.sid)
+					}
 				}
 			case 409:
 				e.conflict = true
@@ -624,7 +638,7 @@ func runInBubble(s Script) (res vt.Result) {
 				standalone.exs = append(standalone.exs, &exch{ex: ex, from: -1, conflict: true})
 				break
 			}
-			if ex == nil || ex.Status() != 200 {
+			if ex == nil || (ex.Status() != 200 && ex.Status() != 0) { // 0: accepted, headers not committed yet (as for resumes)
 				res.Failf("step %d: standalone GET failed", i)
 				return finish(res, s, &desc, nt)
 			}
@@ -648,7 +662,8 @@ func runInBubble(s Script) (res vt.Result) {
 				break
 			}
 			idx := standalone.seenIdx[st.I%len(standalone.seenIdx)]
-			wasAttached := standalone.attached() != nil
+			owner := standalone.attached()
+			wasAttached := owner != nil
 			if detachedWrites[standalone] && !wasAttached {
 				nt = true
 			}
@@ -661,7 +676,12 @@ func runInBubble(s Script) (res vt.Result) {
 			switch ex.Status() {
 			case 200, 0:
 				if wasAttached && !racing {
-					res.Failf("step %d: resume of the standalone stream accepted while another exchange owns it", i)
+					if owner.ex.HandlerDone() {
+						owner.hclosed = true // take-over, as for request streams
+						res.Class("resume_took_over_attached_stream")
+					} else {
+						res.Failf("step %d: resume of the standalone stream accepted while another exchange owns it", i)
+					}
 				}
 			case 409:
 				e.conflict = true
@@ -755,7 +775,8 @@ func runInBubble(s Script) (res vt.Result) {
 			res.Failf("final: the response of call %d is not obtainable by resuming stream %q after event %d (the original exchange is gone)", 100+sr.k, sr.sid, from)
 		}
 		if !ex.HandlerDone() {
-			res.Failf("final: the resumed exchange of finished stream %q did not end", sr.sid)
+			// obtainability is the property; whether the replaying exchange then ends by itself is not: only counted
+			res.Class("replay_of_finished_stream_left_open")
 		}
 	}
 	_ = priming
